@@ -17,13 +17,20 @@
                           frameshort                               get_frame with *nbytes = bytes_of_image-1 (must fail, untouched)
      h_simgeom ext      extent / alignment probes: every line is run in a forked child on a heap buffer of exactly
                         <size> bytes that starts <mis> bytes after a 32-byte boundary; the parent classifies the child
-                        as clean | overflow | misaligned | signal:<n> | other:<status>
+                        as clean | overflow | misaligned | asan-other | signal:<n> | other:<status>
                           rand  <type> <W> <H> <size> <mis>        im_fill_rand on a W x H image
                           pat   <type> <W> <H> <size> <mis>        im_fill_pattern
                           avx2  <w> <h> <size> <mis>               bin2 of bin2.avx2.c   (the one simulated.camera.c uses)
                           plain <w> <h> <size> <mis>               bin2 of bin2.plain.c
                           copysrc <type> <w> <h> <size> <mis>      simcam_get_frame, frame_data is the probed buffer
                           copydst <type> <w> <h> <size> <mis>      simcam_get_frame, the caller's buffer is the probed one
+
+   Copy-out hook.  simulated.camera.c's one memcpy (the copy-out of simcam_get_frame, executed under im.lock) is
+   renamed to vh_memcpy, which snapshots the source when the destination is the caller's buffer of a `frame` op.  The
+   harness compares the caller's buffer with that snapshot (prefix=1), counts the bytes that changed plus the bytes whose
+   published value equals the sentinel (written=...), and the changed bytes beyond bytes_of_image (tail=...).  Reading
+   self->im.frame_data after get_frame returned would race with the streamer's buffer swap (frame_wanted can be stale
+   across stop/start), so it is not done.
 
    Allocator wrappers.  In the sanitizer build a block handed to the camera starts 16 bytes after a 32-byte
    boundary -- the weakest alignment malloc/realloc guarantee on x86-64 (alignof(max_align_t) = 16; glibc returns
@@ -149,6 +156,24 @@ static void vh_print_log(void)
     vh_nlog = 0;
 }
 
+/* ------------------------------------------------------------------------------------------------ copy-out hook */
+/* simulated.camera.c's memcpy (the copy-out in simcam_get_frame, executed under im.lock) is renamed to this wrapper.
+   When the destination is the caller buffer being watched it snapshots the source, so that the harness can compare
+   the caller's buffer with the image that was published without racing with the streamer's buffer swap. */
+static struct { int calls; size_t n; unsigned char* snap; } vh_copy;
+static const void* vh_watch_dst = 0;
+void* vh_memcpy(void* dst, const void* src, size_t n)
+{
+    if (vh_watch_dst && dst == vh_watch_dst) {
+        vh_copy.calls++;
+        vh_copy.n = n;
+        free(vh_copy.snap);
+        vh_copy.snap = malloc(n ? n : 1);
+        memcpy(vh_copy.snap, src, n);
+    }
+    return memcpy(dst, src, n);
+}
+
 /* ------------------------------------------------------------------------------------------------ unit under test */
 #define bin2 bin2_plain
 #include "bin2.plain.c"
@@ -157,7 +182,9 @@ static void vh_print_log(void)
 #define malloc vh_malloc
 #define realloc vh_realloc
 #define free vh_free
+#define memcpy vh_memcpy
 #include "simulated.camera.c"
+#undef memcpy
 #undef malloc
 #undef realloc
 #undef free
@@ -264,7 +291,6 @@ static int seq_main(void)
             printf("FRAME rc=%d written=%zu tail=0\n", rc, changed);
             free(buf);
         } else if (sscanf(line, "frame %lld %lld", &a[0], &a[1]) == 2) {
-            struct SimulatedCamera* self = containerof(cam, struct SimulatedCamera, camera);
             struct ImageShape s;
             cam->get_shape(cam, &s);
             size_t n = bytes_of_image(&s), slack = (size_t)a[0];
@@ -274,26 +300,29 @@ static int seq_main(void)
             size_t nb = n + slack;
             struct ImageInfo info;
             memset(&info, 0, sizeof info);
+            vh_copy.calls = 0; vh_copy.n = 0;
+            vh_watch_dst = buf;
             int rc = (int)cam->get_frame(cam, buf, &nb, &info);
+            vh_watch_dst = 0;
             if (rc != 0) {
                 size_t changed = 0;
                 for (size_t i = 0; i < n + slack; ++i) changed += buf[i] != sent;
                 printf("FRAME rc=%d written=%zu tail=0\n", rc, changed);
             } else {
-                /* After get_frame returned nobody wants a frame, so the streamer does not swap: frame_data is the
-                   image that was published.  written = bytes that changed + bytes whose published value happens to
-                   equal the sentinel (indistinguishable from written); prefix: the caller's first n bytes are the image. */
+                /* written = bytes of the caller's buffer that changed + bytes whose published value equals the sentinel
+                   (indistinguishable from written), counted over the bytes the copy-out moved; tail = changed bytes
+                   beyond bytes_of_image(info.shape); prefix = the caller's first bytes are the published image. */
                 size_t ni = bytes_of_image(&info.shape);
-                const unsigned char* src = (const unsigned char*)self->im.frame_data;
                 size_t changed = 0, eqsent = 0, tail = 0, lim = ni < n + slack ? ni : n + slack;
-                int prefix = 1;
+                int prefix = vh_copy.calls == 1 && vh_copy.n == ni && lim == ni;
                 for (size_t i = 0; i < lim; ++i) {
                     if (buf[i] != sent) changed++;
-                    else if (src[i] == sent) eqsent++;
-                    if (buf[i] != src[i]) prefix = 0;
+                    else if (vh_copy.calls == 1 && i < vh_copy.n && vh_copy.snap[i] == sent) eqsent++;
+                    if (prefix && buf[i] != vh_copy.snap[i]) prefix = 0;
                 }
                 for (size_t i = lim; i < n + slack; ++i) tail += buf[i] != sent;
-                printf("FRAME rc=%d written=%zu tail=%zu prefix=%d nbytes=%zu | ", rc, changed + eqsent, tail, prefix, nb);
+                printf("FRAME rc=%d written=%zu tail=%zu prefix=%d copies=%d nbytes=%zu | ", rc, changed + eqsent, tail, prefix,
+                       vh_copy.calls, nb);
                 print_shape(&info.shape);
                 printf("\n");
             }
@@ -311,7 +340,11 @@ static int seq_main(void)
 static unsigned char* probe_buffer(size_t size, size_t mis)
 {
     void* raw = 0;
-    if (posix_memalign(&raw, 32, size + mis ? size + mis : 1)) _exit(9);
+    if (size + mis == 0) {                     /* an empty buffer: a pointer to the end of a 32-byte block */
+        if (posix_memalign(&raw, 32, 32)) _exit(9);
+        return (unsigned char*)raw + 32;
+    }
+    if (posix_memalign(&raw, 32, size + mis)) _exit(9);
     memset(raw, 0x5a, size + mis);
     return (unsigned char*)raw + mis;
 }
@@ -391,7 +424,9 @@ static int ext_main(void)
         char tmp[64];
         if (WIFEXITED(st) && WEXITSTATUS(st) == 0) cls = "clean";
         else if (strstr(err, "misaligned address")) cls = "misaligned";
-        else if (strstr(err, "heap-buffer-overflow")) cls = "overflow";
+        /* an access that starts inside the block and ends beyond it is reported as "unknown-crash ... to the right of" */
+        else if (strstr(err, "AddressSanitizer") && (strstr(err, "heap-buffer-overflow") || strstr(err, "to the right of"))) cls = "overflow";
+        else if (strstr(err, "AddressSanitizer")) cls = "asan-other";
         else if (WIFSIGNALED(st)) { snprintf(tmp, sizeof tmp, "signal:%d", WTERMSIG(st)); cls = tmp; }
         else { snprintf(tmp, sizeof tmp, "other:%d", WIFEXITED(st) ? WEXITSTATUS(st) : -1); cls = tmp; }
         printf("EXT %s\n", cls);
